@@ -42,6 +42,9 @@ CLAUSES = [
     C("file", [("unknown_option", 1), ("storage_type", "yaml_fs"), ("compose_node_name", True), ("reclass_rs_compat_flags", ["compose-node-name-literal-dots", "bogus"])]),
     C("file", [("ignore_class_notfound", "yes")]), C("file", [("ignore_class_notfound", 1)]),
     C("opts", [("compose_node_name", "true")]), C("file", [("compose_node_name", None)]),
+    C("file", [("ignore_class_notfound_regexp", None)]), C("opts", [("ignore_class_notfound_regexp", None)]),
+    C("file", [("ignore_class_notfound", True), ("ignore_class_notfound_regexp", None)]), C("file", [("reclass_rs_compat_flags", None)]),
+    C("file", [("ignore_class_notfound", None)]), C("file", [("nodes_uri", None)]),
     C("file", [("ignore_class_notfound_regexp", "^a")]), C("file", [("ignore_class_notfound_regexp", ["^a", 1])]),
     C("file", [("ignore_class_notfound_regexp", ["("])]), C("opts", [("ignore_class_notfound_regexp", ["^a", "[a"])]),
     C("file", [("reclass_rs_compat_flags", "x")]), C("file", [("reclass_rs_compat_flags", [1])]),
